@@ -264,5 +264,7 @@ pub fn run(tier: Tier, seed: u64) -> i32 {
     ev.floor("entry point refusals for non-canonical scalars", ev.bucket_get("entry.err-for-non-canonical"), 50);
     ev.floor("adversarial accumulator substitutions", ev.bucket_get("adversarial"), tier.pick(1500, 15000));
     ev.floor("end to end", ev.bucket_get("end_to_end"), 5);
+    ev.floor("near-miss assignments (one sub-identity on one row) refused by the real prover", ev.bucket_get("near_miss.end_to_end"), 20);
+    ev.floor("sub-identities covered by near misses", ev.set_len("near_miss_identities") as u64, 5);
     ev.finish()
 }
